@@ -1,6 +1,6 @@
 (* Statement pins: each property theorem checked against its full statement written out. *)
 From FlacWriters Require Import Writers Lists_proofs Params_proofs Params_sweeps Writers_proofs New_proofs
-     Finalize_proofs C09_proofs Props_C08 Props_C15 Props_C09.
+     Finalize_proofs Encoder_proofs Seek_proofs Finish_proofs Newok_proofs C09_proofs Run_proofs Audio_proofs Frontend_proofs Bytes_proofs Safety_proofs Props_C08 Props_C15 Props_C09.
 Open Scope N_scope.
 
 Check (C08_chunking_sample :
@@ -33,3 +33,73 @@ Check (C09_layout_sample :
       f_stream f = e_prefix (sw_enc w) ++ meta' ++ frames_bytes (f_enc f)).
 Check (C09_layout_cases : forall cap blocks sel blocks',
   finalize_seektable_gen cap blocks sel = Ok blocks' -> meta_len blocks' = meta_len blocks).
+
+Check (C15_new_sample : forall p prefix o rate bps ch total, options_wf o ->
+  is_ok (sample_new p prefix o rate bps ch total) = documented_args WSample rate bps ch total /\
+  is_err (sample_new p prefix o rate bps ch total) = negb (documented_args WSample rate bps ch total)).
+Check (C15_new_byte : forall p en prefix o rate bps ch total, options_wf o ->
+  is_ok (byte_new p en prefix o rate bps ch total) = documented_args WByte rate bps ch total /\
+  is_err (byte_new p en prefix o rate bps ch total) = negb (documented_args WByte rate bps ch total)).
+Check (C15_new_channel : forall p prefix o rate bps ch total, options_wf o ->
+  is_ok (channel_new p prefix o rate bps ch total) = documented_args WChannel rate bps ch total /\
+  is_err (channel_new p prefix o rate bps ch total) = negb (documented_args WChannel rate bps ch total)).
+Check (C15_length_contract_sample :
+  forall enc_block md5 p prefix o rate bps ch total w chunks f,
+    (forall l, length (md5 l) = 16%nat) ->
+    options_wf o -> sample_new p prefix o rate bps ch total = Ok w ->
+    sample_run enc_block md5 p w chunks = Ok f -> counters_fit (f_enc f) ->
+    exists cs r, drain (N.to_nat (ch * o_block_size o)) (concat chunks) = (cs, r) /\
+      let written := o_block_size o * N.of_nat (length cs) + N.of_nat (length r) / ch in
+      si_total (f_si f) = Some written /\ 1 <= written < MAX_SAMPLES /\
+      match total with Some t => t = ch * written | None => True end).
+Check (C09_streaminfo : forall md5 p e f,
+  (forall l, length (md5 l) = 16%nat) ->
+  enc_inv e -> enc_static e -> frames_nonempty e -> encoder_finalize md5 p e = Ok f ->
+  si_total (f_si f) = Some (true_samples e) /\
+  si_min_fs (f_si f) = fs_min (map snd (frames_info e)) /\
+  si_max_fs (f_si f) = fs_max (map snd (frames_info e)) /\
+  si_md5 (f_si f) = Some (md5 (md5_input e)) /\
+  si_rate (f_si f) = si_rate (e_si e) /\ si_channels (f_si f) = si_channels (e_si e) /\
+  si_bps (f_si f) = si_bps (e_si e) /\ si_min_bs (f_si f) = si_min_bs (e_si e) /\
+  si_max_bs (f_si f) = si_max_bs (e_si e) /\ 1 <= true_samples e < MAX_SAMPLES).
+Check (C09_points : forall md5 p e f iv pts,
+  (forall l, length (md5 l) = 16%nat) ->
+  enc_inv e -> enc_static e -> frames_nonempty e -> e_interval e = Some iv ->
+  encoder_finalize md5 p e = Ok f -> first_seektable (f_blocks f) = Some pts ->
+  is_contiguous pts = true /\
+  (forall s b m, In (Defined s b m) pts ->
+     In {| sp_sample := s; sp_byte := Some b; sp_frames := m |} (frame_seekpoints 0 0 (frames_info e))) /\
+  exists sel regenerated,
+    generate_seektable p (si_rate (e_si e)) (frames_info e) iv = Ok regenerated /\
+    defined_points regenerated = take_n (map to_mpoint sel) MAX_POINTS /\
+    match first_seektable (e_blocks e) with
+    | None => pts = regenerated
+    | Some old => defined_points pts = take_n (map to_mpoint sel) (N.of_nat (length old))
+    end).
+
+Check (C08_frontends_channel_block :
+  forall enc_block p ch bytes e (blk : block) m,
+    1 <= ch <= 8 -> length blk = N.to_nat ch -> Forall (fun c => length c = m) blk -> (1 <= m)%nat ->
+    channel_encode_chunk enc_block p ch bytes e blk =
+    sample_encode_chunk enc_block p ch bytes e (concat (multizip blk))).
+Check (C08_frontends_byte_le_block :
+  forall enc_block p ch n e (buf : list N) m,
+    1 <= n <= 4 -> N.of_nat (length buf) = n * m -> Forall byte_ok buf ->
+    byte_encode_chunk enc_block p LE ch n e buf =
+    sample_encode_chunk enc_block p ch n e (map bytes_to_int_le (fst (drain (N.to_nat n) buf)))).
+Check (C08_frontends_byte_be_block :
+  forall enc_block p ch n e (buf : list N) m,
+    1 <= n <= 4 -> N.of_nat (length buf) = n * m -> Forall byte_ok buf ->
+    byte_encode_chunk enc_block p BE ch n e buf =
+    sample_encode_chunk enc_block p ch n e
+      (map (fun c => bytes_to_int_le (rev c)) (fst (drain (N.to_nat n) buf)))).
+Check (C08_partial_dropped_sample :
+  forall enc_block md5 p prefix o rate bps ch total w (x partial : list Z),
+    options_wf o -> sample_new p prefix o rate bps ch total = Ok w ->
+    N.of_nat (length x) mod ch = 0 -> N.of_nat (length partial) < ch ->
+    sample_run enc_block md5 p w [x ++ partial] = sample_run enc_block md5 p w [x]).
+Check (C08_no_panic_sample_debug :
+  forall enc_block md5 prefix o rate bps ch total w chunks,
+    (forall l, length (md5 l) = 16%nat) -> (forall n b, is_panic (enc_block n b) = false) ->
+    options_wf o -> sample_new Debug prefix o rate bps ch total = Ok w ->
+    match sample_run enc_block md5 Debug w chunks with Panic k => k = POverflow | _ => True end).
